@@ -99,6 +99,15 @@ fn c10_put_step() {
         }
     }
     check_views_agree(store, "mid");
+    if n_held >= cap && incoming_is_new && res.is_err() {
+        // the refused record is offered again with other content (a newer version of it): it is still farther
+        // than everything held, so it is refused again and nothing changes
+        let res2 = w.driver.arm_put_local_record(chunk_record(&k_in, 2));
+        cover("reoffered_after_refusal");
+        check_bool("at_capacity:reoffer_of_refused_key_is_refused_again", res2.is_err());
+        check_bool("at_capacity:reoffer_leaves_set_unchanged", held_set(w.driver.node_store()) == before);
+        check_bool("at_capacity:reoffer_starts_no_write", w.in_flight() == 0);
+    }
     w.settle();
     let store = w.driver.node_store();
     check_views_agree(store, "post");
